@@ -1029,7 +1029,8 @@ class C06(C01):
         keep = cfg.get("f_order_p")
         cfg["f_order_p"] = 1.0
         try:
-            x = g.leaf(shape=(rng.randint(2, 3), rng.randint(2, 3)), dtype="f8", constant=None)
+            # (a float32/float16 base additionally receives its float64 contribution through a cast)
+            x = g.leaf(shape=(rng.randint(2, 3), rng.randint(2, 3)), dtype=rng.choice(["f8", "f8", "f4", "f2"]), constant=None)
         finally:
             cfg["f_order_p"] = keep
         v1 = g._emit_op("transpose", [{"t": x}], {"axes": None, "T": rng.random() < 0.5}, view_src=x)
@@ -2003,7 +2004,18 @@ class C17(Prop):
             g.arr()
         g.leaf()
         for _ in range(rng.randint(5, 25 * DEPTH)):
-            k = g.wchoice([("wrap", 5), ("conv", 4), ("awrite", 4), ("unary", 2), ("binary", 3), ("view", 1.5), ("backward", 1.5), ("arr", 1), ("drop_t", 1), ("leaf", 0.5), ("reduce", 1)])
+            k = g.wchoice([("wrap", 5), ("conv", 4), ("awrite", 4), ("unary", 2), ("binary", 3), ("view", 1.5), ("backward", 1.5), ("arr", 1), ("drop_t", 1), ("leaf", 0.5), ("reduce", 1), ("create", 2.5)])
+            if k == "create":
+                if rng.random() < 0.15:
+                    # inside no_autodiff the dtype gate is open (complex data is accepted there)
+                    sc = {"k": "scope", "mgr": "no_autodiff", "style": "with", "body": []}
+                    outer, g._sink = g._sink, sc["body"]
+                    g.create()
+                    g._sink = outer
+                    g.emit(sc)
+                else:
+                    g.create()
+                continue
             if k == "wrap":
                 hs = sorted(g.a)
                 if not hs:
@@ -2081,7 +2093,7 @@ class C17(Prop):
         return {"prop": self.id, "cfg": cfg, "events": g.ev}
 
     def observers(self, hist):
-        return [O.AliasOracle(), O.GradOracle("C17", judge_keep=False)]
+        return [O.AliasOracle(), O.CreationOracle(), O.GradOracle("C17", judge_keep=False)]
 
     def after_run(self, hist, w):
         # astensor(t) returned t itself: the history must behave exactly as if it had never been called
